@@ -107,3 +107,32 @@ Section SolverHistory.
       now rewrite !(last_const_consts V d (const_names m) _ k _ NDc Hk).
   Qed.
 End SolverHistory.
+
+(* ======== whole transcripts of histories ======== *)
+(* the whole transcript of a history: what each evaluation handed to the wrapped object *)
+Fixpoint transcript {V} (s : cstate V) (history : list (list V)) : list (option (list V)) :=
+  match history with
+  | [] => []
+  | f :: t => fst (ceval s f) :: transcript (snd (ceval s f)) t
+  end.
+(* ... is what a fresh copy of the initial object would have handed over, evaluation by evaluation: no evaluation
+   can see which ones preceded it, in any interleaving *)
+Theorem transcript_pure {V} (s : cstate V) history : transcript s history = map (cexpand s) history.
+Proof.
+  revert s. induction history as [|f t IH]; intros s; cbn [transcript map]; [reflexivity|].
+  rewrite IH. f_equal. apply map_ext. intros g.
+  destruct (evals_unobservable V s [f] g) as [H _]. exact H.
+Qed.
+(* the setting an entry point runs with is a function of the entry point alone *)
+Theorem switch_is_entry_point flag o :
+  switch flag o = match o with ValueWithSensitivities => true | _ => false end.
+Proof. destruct flag, o; reflexivity. Qed.
+(* the settings seen along a whole history of entry points *)
+Fixpoint settings (flag : bool) (history : list eval_op) : list bool :=
+  match history with [] => [] | o :: t => switch flag o :: settings (switch flag o) t end.
+Theorem settings_pure flag history :
+  settings flag history = map (fun o => match o with ValueWithSensitivities => true | _ => false end) history.
+Proof.
+  revert flag. induction history as [|o t IH]; intros flag; cbn [settings map]; [reflexivity|].
+  now rewrite IH, switch_is_entry_point.
+Qed.
